@@ -311,7 +311,9 @@ func c17Doc(c *fw.Ctx) (corpusDoc, string) {
 		d.Origin = "mutated"
 		return d, "invalid"
 	}
+	ttxFarOdds = 1
 	d := genDoc(c.R, format, variant == 3)
+	ttxFarOdds = 3
 	if (format == "srt" || format == "webvtt" || format == "ssa") && !bytes.Contains(d.Data, []byte("\r")) && c.R.Bool() {
 		d.Data = mixEOL(c.R, d.Data) // line ends of every kind in one document
 		d.Origin += ", mixed line ends"
@@ -477,7 +479,12 @@ func c17Run(c *fw.Ctx) fw.Outcome {
 	tmp := filepath.Join(c.TmpDir(), "c17-doc")
 	os.WriteFile(tmp, d.Data, 0o644)
 	var file, file2 *os.File
+	var pipes []*os.File
 	defer func() {
+		for _, p := range pipes {
+			io.Copy(io.Discard, p) // let the writing side finish
+			p.Close()
+		}
 		if file != nil {
 			file.Close()
 		}
@@ -530,6 +537,15 @@ func c17Run(c *fw.Ctx) fw.Outcome {
 			file2, _ = os.Open(tmp + ".off")
 			file2.Seek(1000, io.SeekStart)
 			return file2
+		}},
+		{"the read end of an os.Pipe (an *os.File that cannot seek)", func() io.Reader {
+			pr, pw, err := os.Pipe()
+			if err != nil {
+				return bytes.NewReader(d.Data)
+			}
+			pipes = append(pipes, pr)
+			go func() { pw.Write(d.Data); pw.Close() }()
+			return pr
 		}},
 		{"iotest.HalfReader", func() io.Reader { return iotest.HalfReader(bytes.NewReader(d.Data)) }},
 		{"iotest.DataErrReader", func() io.Reader { return iotest.DataErrReader(bytes.NewReader(d.Data)) }},
